@@ -225,6 +225,29 @@ fn check_tape(tape: &[u8], gates: &Gates, stats: &mut Stats, counting: bool) -> 
             stats.class("text.bom-like-sequence-first-non-ascii");
         }
     }
+    // Windows-1252 characters whose bytes happen to be a well-formed UTF-8 sequence ("Ã©" = C3 A9,
+    // "â‚¬" = E2 82 AC, "Ø±" = D8 B1 ...) in front of the code of some lines, and one lone high byte
+    // at the very end: the file as a whole is not UTF-8, so every byte of it is Windows-1252 - also
+    // the runs a UTF-8 decoder would have been happy with (a decoder that hands over in mid-file
+    // reads them as one character and every column behind them moves)
+    if choice.ratio(1, 8) {
+        let run = *choice.pick(&["\u{c3}\u{a9}", "\u{e2}\u{201a}\u{ac}", "\u{c2}\u{b0}", "\u{d8}\u{b1}", "\u{c3}\u{bc}\u{c3}\u{178}", "\u{f0}\u{178}\u{2dc}\u{20ac}", "\u{c3}\u{a9}\u{c3}\u{a9}\u{c3}\u{a9}"]);
+        let nl = if crlf { "\r\n" } else { "\n" };
+        let mut out = String::new();
+        for l in text.lines() {
+            if choice.ratio(1, 2) {
+                out.push_str(&format!("(* {} *) ", run));
+            }
+            out.push_str(l);
+            out.push_str(nl);
+        }
+        out.push_str("(* \u{e9} *)");
+        out.push_str(nl);
+        text = out;
+        if counting {
+            stats.class("text.utf8-looking-runs-before-the-first-lone-high-byte");
+        }
+    }
     // a file larger than any read / decode block (4 KiB ... 64 KiB and beyond), with two-byte
     // characters so dense that every block boundary of the UTF-8 form has an even chance to fall
     // inside one; a few ASCII bytes in front shift the phase
